@@ -31,8 +31,11 @@ class FakePort:
               IOError, TimeoutError, serial.serialutil.PortNotOpenError, ConnectionResetError]
     NARROW = [serial.SerialException, serial.SerialTimeoutException, serial.serialutil.PortNotOpenError]
     wide_faults = True       # False while connect / reboot / bootload run: those contain pyserial's exceptions only (see DESIGN.md 0.6)
+    force_fault = None       # a harness may pin the exception class of every injected fault (e.g. SerialTimeoutException at the write)
+    write_attempts = 0
     def fault(self, where):
         pool = self.FAULTS if self.wide_faults else self.NARROW
+        if self.force_fault is not None: pool = [self.force_fault]
         cls = pool[self.script.consumed % len(pool)]
         if cls is serial.serialutil.PortNotOpenError:
             return cls()
@@ -40,6 +43,7 @@ class FakePort:
             return cls("injected fault on %s" % where)
         return cls(5, "Input/output error (injected fault on %s)" % where)
     def write(self, data):
+        self.write_attempts += 1
         ev = self.script.next()
         if ev == "F":
             raise self.fault("write")
